@@ -37,22 +37,22 @@ GATES = {
             (r"^cls\.sig-high-s-twin\.(k256|libsecp256k1|combined)\.reject$", 1, "per"),
             (r"^cls\.(sig-by-other-key|sig-over-seq-plus-1|sig-over-value-changed|sig-of-another-record|sig-wrong-length|pubkey-swapped)\.(k256|libsecp256k1|ed25519|combined)\.reject$", 1, "per"),
             (r"^cls\.bit-flip\..*\.reject$", 1000, "sum"), (r"^cls\.truncation\..*\.reject$", 100, "sum")],
-    "C02": [(r"^lib-made-records-judged$", 200, "sum"), (r"^concurrent-decodes$", 200, "sum"), (r"^canary-redecodes$", 100, "sum"), (r"^interference-steps$", 50, "sum"), (r"^cls\.sig-der-encoded\..*\.reject$", 1, "sum"),
+    "C02": [(r"^volume-stress-calls$", 100000, "sum"), (r"^cls\.(size-giant-nested|nested-input)\..*\.reject$", 4, "sum"), (r"^lib-made-records-judged$", 200, "sum"), (r"^concurrent-decodes$", 200, "sum"), (r"^canary-redecodes$", 100, "sum"), (r"^interference-steps$", 50, "sum"), (r"^cls\.sig-der-encoded\..*\.reject$", 1, "sum"),
             (r"^ref\.accept\.(k256|libsecp256k1|ed25519|combined|toy)\.accept$", 1, "per"),
             (r"^ref\.(unsorted-keys|duplicate-key|missing-value|no-id|id|no-pubkey|pubkey-invalid|pubkey-not-string|port|ip|ip6|seq|item-frame|outer-not-list|outer-frame|size|signature|key-not-string|signature-not-string|empty-list|no-seq)\.[a-z0-9]+\.reject$", 1, "each-rule")],
-    "C03": [(r"^concurrent-decodes$", 200, "sum"), (r"^concurrent-steps$", 100, "sum"), (r"^c03\.error-values-formatted$", 100, "sum"), (r"^byte-value-histories$", 50, "sum"),
+    "C03": [(r"^volume-stress-calls$", 100000, "sum"), (r"^signer-panic-cases$", 5, "sum"), (r"^c15\.clone_from$", 100, "sum"), (r"^concurrent-decodes$", 200, "sum"), (r"^concurrent-steps$", 100, "sum"), (r"^c03\.error-values-formatted$", 100, "sum"), (r"^byte-value-histories$", 50, "sum"),
             (r"^c03\.accessor-calls$", 1000, "sum"), (r"^decode\.", 1000, "sum"), (r"^c03\.string-calls$", 1000, "sum"), (r"^steps$", 500, "sum")],
     "C04": [(r"^accepted$", 100, "sum"), (r"^c04\.roundtrips$", 500, "sum")],
-    "C05": [(r"^short-signature-cases$", 20, "sum"), (r"^incremental-builds$", 100, "sum"), (r"^fault-len1-histories$", 50, "sum"), (r"^concurrent-steps$", 100, "sum"), (r"^aux-record-steps$", 100, "sum"), (r"^fault-histories$", 10, "sum"), (r"^byte-value-histories$", 100, "sum"), (r"^random-builder-plans$", 10, "sum"), (r"^builder-reuse$", 1, "sum"),
+    "C05": [(r"^signer-panic-cases$", 5, "sum"), (r"^short-signature-cases$", 20, "sum"), (r"^incremental-builds$", 100, "sum"), (r"^fault-len1-histories$", 50, "sum"), (r"^concurrent-steps$", 100, "sum"), (r"^aux-record-steps$", 100, "sum"), (r"^fault-histories$", 10, "sum"), (r"^byte-value-histories$", 100, "sum"), (r"^random-builder-plans$", 10, "sum"), (r"^builder-reuse$", 1, "sum"),
             (r"^states-checked$", 1000, "sum"), (r"^rekey-steps-ok$", 20, "sum"), (r"^op\.[a-z_0-9]+\.ok$", 1, "each-op")],
-    "C06": [(r"^concurrent-steps$", 100, "sum"), (r"^fault\.injected-runs$", 500, "sum"), (r"^c06\.evals$", 1000, "sum"),
+    "C06": [(r"^signer-panic-cases$", 5, "sum"), (r"^concurrent-steps$", 100, "sum"), (r"^fault\.injected-runs$", 500, "sum"), (r"^c06\.evals$", 1000, "sum"),
             (r"^gate\.fail\.(set_seq|insert|typed-setter|remove_key|set_socket|remove_insert)\.signer-fault$", 1, "per"),
             (r"^gate\.fail\.(insert|typed-setter|remove_key|set_socket|remove_insert)\.seq-overflow$", 1, "per"),
             (r"^gate\.fail\.(set_seq|insert|typed-setter|set_socket|remove_insert)\.size$", 1, "per"),
             (r"^gate\.fail\.(insert|remove_insert)\.(ill-typed|unsupported-id)$", 1, "per"),
             (r"^gate\.fail\.insert\.malformed-rlp$", 1, "per")],
     "C07": [(r"^concurrent-steps$", 100, "sum"), (r"^c07\.evals$", 1000, "sum"), (r"^c07\.decode-seq-evals$", 500, "sum"), (r"^gate\.fail\.[a-z_-]+\.seq-overflow$", 10, "sum")],
-    "C08": [(r"^concurrent-steps$", 100, "sum"), (r"^c08\.evals$", 1000, "sum"), (r"^op\.[a-z_0-9]+\.ok$", 1, "each-op"), (r"^op\.build\.(ok|err)$", 1, "per")],
+    "C08": [(r"^signer-panic-cases$", 5, "sum"), (r"^concurrent-steps$", 100, "sum"), (r"^c08\.evals$", 1000, "sum"), (r"^op\.[a-z_0-9]+\.ok$", 1, "each-op"), (r"^op\.build\.(ok|err)$", 1, "per")],
     "C09": [(r"^c09\.minimal-record-cases$", 50, "sum"), (r"^c09\.cross-scheme-cases$", 10, "sum"),
             (r"^c09\.targeted-cases$", 1000, "sum"), (r"^gate\.c09\.target\.(insert|typed-setter|set_socket|remove_insert|set_seq)\.(le300|gt300)$", 1, "per"),
             (r"^gate\.c09\.refused\.(insert|typed-setter|set_socket|remove_insert|set_seq)$", 1, "per"), (r"^gate\.build-ok-size\.small$", 1, "sum"),
@@ -69,7 +69,7 @@ GATES = {
     "C14": [(r"^ports\.(builder|setter|socket-setter|decode)$", 65536 * 4 * 2, "per"), (r"^presence-combinations$", 64 * 3, "sum"), (r"^c14\.get_decodable-evals$", 100, "sum")],
     "C15": [(r"^c15\.size-boundary-cases$", 10, "sum"),
             (r"^c15\.pairs$", 10000, "sum"), (r"^c15\.equal-pairs$", 100, "sum"), (r"^c15\.content-equal-pairs$", 100, "sum")],
-    "C16": [(r"^nodeid\.codepoint-sweep$", 1000, "sum"), (r"^nodeid\.multibyte-offsets$", 100, "sum"),
+    "C16": [(r"^nodeid\.raw-eq-cases$", 100, "sum"), (r"^nodeid\.codepoint-sweep$", 1000, "sum"), (r"^nodeid\.multibyte-offsets$", 100, "sum"),
             (r"^nodeid\.parse-lengths$", 65 * 4, "sum"), (r"^nodeid\.hex-lengths$", 71 * 5, "sum"), (r"^nodeid\.accept-forms$", 1000, "sum"), (r"^nodeid\.reject-forms$", 1000, "sum")],
     "C17": [(r"^c17\.guarded-buffers$", 100, "sum"), (r"^c17\.back-to-back-imports$", 50, "sum"),
             (r"^c17\.secp\.accepted$", 100, "sum"), (r"^c17\.secp\.rejected$", 4, "sum"), (r"^c17\.ed\.accepted$", 100, "sum"), (r"^c17\.ed\.wrong-length$", 7, "sum"), (r"^c17\.signed-records$", 20, "sum")],
